@@ -100,6 +100,34 @@ def main(argv=None):
                                     timeout=L.get("timeout", 120 if tier == "quick" else 600),
                                     known=list(known), extra_env=env)))
 
+        # valgrind memcheck passes (thorough tier): reduced workload on an uninstrumented build,
+        # looking for uses of uninitialised values, which the compiler sanitizers cannot see
+        if tier == "thorough" and not a.replay and not os.environ.get("VERIF_NO_MEMCHECK"):
+            mlegs = [L for L in P["legs"] if L.get("memcheck") and (not a.leg or L["name"] in a.leg)]
+            if mlegs:
+                try:
+                    pdir = build.ensure_lib("plain", repo)
+                except build.BuildError as e:
+                    print("INCONCLUSIVE: plain library build failed:\n%s" % e, file=sys.stderr)
+                    return 2
+                for L in mlegs:
+                    try:
+                        exe = build.build_harness(pdir, L, "plain", repo)
+                    except build.BuildError as e:
+                        print("INCONCLUSIVE: harness %s does not build without sanitizers:\n%s" % (L["name"], e), file=sys.stderr)
+                        return 2
+                    lw = os.path.join(work, L["name"] + "@memcheck")
+                    os.makedirs(lw)
+                    env = dict(L.get("env", {}))
+                    env["VERIF_REPO"] = repo
+                    env["VERIF_DIR"] = VERIF
+                    ML = dict(L)
+                    ML["name"] = L["name"] + "@memcheck"
+                    ML["floors"] = {}
+                    ML["memcheck_cases"] = int(L["memcheck"])
+                    legs.append((ML, run.Leg(exe, ML["name"], tier, seed, lw, repo, batch=L.get("batch", 256) if L.get("batch", 256) == 1 else 64,
+                                             lsan=False, timeout=1800, known=list(known), extra_env=env, memcheck=True)))
+
         if a.replay:
             L, leg = legs[0]
             r, c = leg.replay(rp["case"])
@@ -117,6 +145,9 @@ def main(argv=None):
             return 0
 
         for L, leg in legs:
+            if L.get("memcheck_cases"):
+                total = leg.count_cases()
+                leg.stride = max(1, total // max(1, L["memcheck_cases"]))
             leg.run()
 
         # ---- merge
@@ -146,8 +177,11 @@ def main(argv=None):
                 have = leg.counters.get(k, 0)
                 if have < need and not leg.violations:
                     inconclusive.append("%s: coverage floor missed: %s = %d < %d" % (L["name"], k, have, need))
-            if leg.evaluations < leg.total and not leg.violations and not leg.inconclusive:
-                inconclusive.append("%s: only %d of %d cases evaluated" % (L["name"], leg.evaluations, leg.total))
+            expected = leg.total if leg.stride == 1 else (leg.total + leg.stride - 1) // leg.stride
+            if leg.stride > 1:
+                per_leg[L["name"]]["stride"] = leg.stride
+            if leg.evaluations < expected and not leg.violations and not leg.inconclusive:
+                inconclusive.append("%s: only %d of %d cases evaluated" % (L["name"], leg.evaluations, expected))
 
         # ---- verdict
         bykey = {}
